@@ -228,7 +228,10 @@ class Ctx:
         self.pos = 0
         self.pc = []
         self.solver = z3.Solver()
-        self.solver.set('timeout', engine.cfg.branch_timeout_ms)
+        # feasibility checks run under z3's deterministic resource limit, not a wall-clock timeout: which branches count as
+        # "not refuted quickly" (and are then explored: sound) no longer depends on the load of the machine, and z3 5.1's
+        # crashes on wall-clock cancellation inside incremental string/array solving are avoided. ~1.2e6 units ~ 1 s idle.
+        self.solver.set('rlimit', int(os.environ.get('PYVC_BRANCH_RLIMIT_PER_MS', '1200')) * engine.cfg.branch_timeout_ms)
         self.heap = None
         self.counter = 0
         self.ob_counter = 0
